@@ -1,10 +1,11 @@
 (* C14 -- IDL built-in replacements (smooth, median, uniq, rebin) follow IDL semantics.
    Property theorems only; each is closed by `exact` and followed by Print Assumptions.
-   M = transliterated models (smooth's index arithmetic is GENERATED from pydl/smooth.py on every run),
+   M = transliterated models (smooth's index arithmetic, rebin's shape tests, branch selectors and
+   shrink arithmetic are GENERATED from pydl/smooth.py and pydl/rebin.py on every run),
    S = specification models (C14/Model.v).  All statements hold for every length / width / shape. *)
 From Coq Require Import ZArith QArith Qround List Bool Sorted Permutation.
 Import ListNotations.
-From PV Require Import Generated.Smooth C14.Model C14.Proofs C14.ProofsUniq C14.ProofsRebin C14.ProofsMedian.
+From PV Require Import Generated.Smooth Generated.Rebin C14.Model C14.Proofs C14.ProofsUniq C14.ProofsRebin C14.ProofsMedian C14.ProofsLift.
 Open Scope Z_scope.
 
 (* ================================================================== smooth *)
@@ -230,6 +231,11 @@ Theorem C14_rebin_refines_spec : forall k s,
 Proof. exact (fun k s => conj (rebin1_refines k s) (conj (rebin2_refines k s) (rebin3_refines k s))). Qed.
 Print Assumptions C14_rebin_refines_spec.
 
+(* the GENERATED ValueError tests of rebin.py (rank test, per-axis `%` tests) are the documented rule *)
+Theorem C14_rebin_generated_shape_test : forall d0 d, dims_ok_gen d0 d = dims_ok d0 d.
+Proof. exact dims_ok_gen_eq. Qed.
+Print Assumptions C14_rebin_generated_shape_test.
+
 (* rebin_shape *)
 Theorem C14_rebin_shape_1d : forall k s x a y, 0 <= a -> rebin1 k s x [a] = R1 y -> lenZ y = a.
 Proof. exact rebin1_shape. Qed.
@@ -299,6 +305,27 @@ Theorem C14_rebin_rejects_rank_change : forall k s,
   (forall x d, length d <> 3%nat -> rebin3 k s x d = RValueError).
 Proof. exact rebin_rejects_rank_change. Qed.
 Print Assumptions C14_rebin_rejects_rank_change.
+
+(* the 1-D kernel lifted to 2-D / 3-D: the axis-0 pass acts on every column x[:, j] (2-D) and on every
+   line x[:, j, jj] (3-D) as the 1-D rule; later axes are `map`s of the 1-D rule by definition *)
+Theorem C14_rebin_lifted_axis_columnwise : forall (T : Type) (o : ops T) sample (x : list (list T)) a c j,
+  rect c x -> (j < c)%nat ->
+  colT o j (rebin_axis_spec (ops_lift o) sample x a) = rebin_axis_spec o sample (colT o j x) a.
+Proof. exact lifted_axis_columnwise. Qed.
+Print Assumptions C14_rebin_lifted_axis_columnwise.
+Theorem C14_rebin_lifted2_axis_columnwise : forall (T : Type) (o : ops T) sample (x : list (list (list T))) a c1 c2 j jj,
+  rect c1 x -> Forall (rect c2) x -> (j < c1)%nat -> (jj < c2)%nat ->
+  colT o jj (colT (ops_lift o) j (rebin_axis_spec (ops_lift (ops_lift o)) sample x a))
+  = rebin_axis_spec o sample (colT o jj (colT (ops_lift o) j x)) a.
+Proof. exact lifted2_axis_columnwise. Qed.
+Print Assumptions C14_rebin_lifted2_axis_columnwise.
+Theorem C14_rebin2_columns_then_rows : forall k s (x : list (list Q)) a b c y,
+  rect c x -> rebin2_spec k s x [a; b] = R2 y ->
+  exists z, (x <> [] -> rect c z) /\
+            (forall j, (j < c)%nat -> colT (ops_elem k) j z = rebin_axis_spec (ops_elem k) s (colT (ops_elem k) j x) a) /\
+            y = map (fun row => rebin_axis_spec (ops_elem k) s row b) z.
+Proof. exact rebin2_columns_then_rows. Qed.
+Print Assumptions C14_rebin2_columns_then_rows.
 
 (* ================================================================== non-vacuity *)
 
